@@ -1,12 +1,12 @@
 from checks import pbt, fuzz, P
 
 # Size of the configuration matrix defined in harness/c07_tls.cpp (Matrix::Matrix):
-#   client/openssl 26880 + client/raw 192 + server/openssl 3360 + server/raw 48 +
-#   httpclient/openssl 3360 + httpclient/raw 40 + httpserver/openssl 840 + httpserver/raw 12 +
-#   transport/tls-not-switched-on 24
+#   client/openssl 34560 + client/raw 192 + server/openssl 3360 + server/raw 48 +
+#   httpclient/openssl 4320 + httpclient/raw 40 + httpserver/openssl 840 + httpserver/raw 12 +
+#   transport/tls-not-switched-on 24 + transport/close-during-handshake 16
 # (C07_PRINT_MATRIX=1 <binary> --regress authentication_fixed_points prints it.)
-CELLS = 34756
-CRITICAL = 852          # authentication-critical sub-matrix, enumerated in BOTH tiers
+CELLS = 43412
+CRITICAL = 988          # authentication-critical sub-matrix, enumerated in BOTH tiers
 SHARDS = 16             # must equal kShards in harness/c07_tls.cpp (interleaved partitions)
 
 
@@ -16,13 +16,14 @@ def per_shard(n):
 
 SPEC = dict(
     level="fault_enumeration",
-    level_text=("Enumeration of a finite configuration matrix (34756 cells) with one executed TLS scenario per cell: "
+    level_text=("Enumeration of a finite configuration matrix (43412 cells) with one executed TLS scenario per cell: "
                 "iora role (transport connect / connectSync / server, HttpClient, HttpServer) x peer kind (independent "
                 "OpenSSL peer, plaintext, garbage) x verification on/off x trust anchors x server certificate (valid, self-signed, expired, not yet valid +1 day / +10 years, wrong name, key mismatch) x client "
-                "certificate x peer protocol ceiling x iora minVersion x connect-by (IP literal / host name), plus the cells 'TLS requested per call but the TlsConfig behind it not switched on'. An independent "
+                "certificate x peer protocol ceiling x iora minVersion x connect-by (IP literal / host name), plus the cells 'TLS requested per call but the TlsConfig behind it not switched on' and the scenario 'application writes 0-3 markers and closes after 0-5 ms while the handshake "
+                "is still running, peer answering after 0-20 ms or never'. An independent "
                 "decision table derives 'must not admit' from the cell; the observations are positive facts only (callback "
                 "fired, call returned ok, bytes seen on the wire / at the application). The thorough tier walks every cell "
-                "deterministically (16 interleaved partitions, one per shard); the quick tier walks the 852-cell "
+                "deterministically (16 interleaved partitions, one per shard); the quick tier walks the 988-cell "
                 "authentication-critical sub-matrix deterministically and samples the rest."),
     level_note=("Trusts the independent side: OpenSSL's own handshake/verification in the peer, the in-process PKI "
                 "(harness/common/c07_certs.hpp) and the peer's wire capture at its socket boundary (equivalent to an "
@@ -32,13 +33,13 @@ SPEC = dict(
                 "without iora, that the peers do negotiate TLS 1.0/1.1 and do reject the bad certificates."),
     technique=("exhaustive enumeration of a configuration matrix against an independent OpenSSL peer with wire capture "
                "(property-based harness: rapidcheck drives markers, noise and the sampled tier)"),
-    rule=("cell index -> mixed-radix decode into 12 dimensions inside one of 9 blocks (full Cartesian products; dimensions that "
+    rule=("cell index -> mixed-radix decode into 13 dimensions inside one of 10 blocks (full Cartesian products; dimensions that "
           "cannot matter for a role/peer kind are pinned). walk: cell = shard + 16*case (every cell exactly once); critical: "
           "same over the sub-matrix {all plaintext/garbage cells; all 'TLS not switched on' cells; verify on x every trust x certificate x name (resp. CA x "
           "client certificate) combination at TLS1.2/1.3; verify-off baselines; downgrade probes at TLS1.0/1.1}; sample: "
           "block by weight, then uniform. Per case additionally drawn: 4 random 32-byte markers, early-send flag, garbage "
-          "form + noise. Non-trivial = the scenario reached a definite outcome (admitted / refused / configuration refused at "
-          "start) within the bound; distinct by cell index - distinct_nontrivial == 34756 (+8 self-test scenarios) means the "
+          "form + noise, and for the close-during-handshake cells burst size 0-3, close delay 0-5000 us, peer delay 0-20 ms. Non-trivial = the scenario reached a definite outcome (admitted / refused / configuration refused at "
+          "start) within the bound; distinct by cell index - distinct_nontrivial == 43412 (+8 self-test scenarios) means the "
           "matrix was exhausted."),
     exhaustive_key="c07_tls.walk: walk: shard finished its partition of the enumeration",
     assumptions=[
